@@ -60,8 +60,11 @@ def main():
              "Each seeded change (sub-agent written, confirmed: suite 126 passed, demo fails with / passes without) applied to a scratch",
              "worktree of /repo at HEAD (GEOMETER_SRC), then the quick check of the targeted property (further checks in the last column).", "",
              "| seed | property | targeted check | other checks |", "|---|---|---|---|"]
-    for r in rows:
-        lines.append("| " + " | ".join(r) + " |")
+    # one row per kept seed, from its meta.json (so that a partial run does not drop the others)
+    for d in sorted(p for p in (ROOT / "seeded").iterdir() if (p / "meta.json").exists()):
+        meta = json.loads((d / "meta.json").read_text())
+        det = meta.get("detected_by") or ["(not run)"]
+        lines.append("| " + " | ".join([d.name + (" (rebased)" if meta.get("rebased") else ""), meta["property"], det[0], " ; ".join(det[1:])]) + " |")
     (ROOT / "seeded" / "MATRIX.md").write_text("\n".join(lines) + "\n")
 
 
